@@ -71,7 +71,7 @@ class VUnit:
 
     def fn(self, file, name, impl=None, nth=0, ret=None, requires=(), ensures=(), loops=None, inserts=(),
            rules=(), subst=(), sig_subst=(), external_body=False, canary=True, rename=None, ret_type=None,
-           attrs='', body_override=None, decreases=None, opens_invariants=None, no_unwind=False, returns=None, post=()):
+           attrs='', body_override=None, decreases=None, opens_invariants=None, no_unwind=False, returns=None, post=(), opt_inserts=(), resubst=()):
         """extract `fn name` and splice the contract. `rules`: names of rsx.rule_* to apply to the body.
         `subst`: [(literal, replacement, rulename)] literal body substitutions (each must match, logged as a rule).
         `loops`: {ordinal: 'invariant ..., decreases ..'} ; `inserts`: [(anchor, before|after|replace, text)]"""
@@ -94,6 +94,11 @@ class VUnit:
                 raise rsx.ExtractError('lost anchor: substitution %r (%s) in %s::%s' % (lit, rn, file, name))
             body = body.replace(lit, rep)
             fired.append('%s x%d' % (rn, c))
+        for rx_, rep, rn in resubst:
+            body, c = re.subn(rx_, rep, body)
+            if c == 0:
+                raise rsx.ExtractError('lost anchor: regex substitution %r (%s) in %s::%s' % (rx_, rn, file, name))
+            fired.append('%s x%d' % (rn, c))
         for lit, rep in sig_subst:
             if lit not in sig:
                 raise rsx.ExtractError('lost anchor: signature substitution %r in %s::%s' % (lit, file, name))
@@ -105,6 +110,12 @@ class VUnit:
             body = rsx.annotate_loops(body, loops, name)
         for anchor, where, text in inserts:
             body = rsx.insert_at(body, anchor, where, text, name)
+        for anchor, where, text in opt_inserts:
+            # proof hints / type annotations that are only needed for one spelling of the code: skipped when the anchor is gone
+            if body.count(anchor) == 1:
+                body = rsx.insert_at(body, anchor, where, text, name)
+            else:
+                fired.append('optional insert skipped (anchor %r not unique/present)' % anchor[:40])
         if rename:
             sig = re.sub(r'\bfn\s+' + re.escape(name) + r'\b', 'fn ' + rename, sig, count=1)
         # named return value
